@@ -15,6 +15,11 @@ use crate::world::ExecCfg;
 
 pub const VERIF_DIR: &str = "/verif";
 
+/// Where evidence and replay files go: /verif, unless a sensitivity run redirects them.
+pub fn out_dir() -> PathBuf {
+    PathBuf::from(std::env::var("VERIF_OUT").unwrap_or_else(|_| VERIF_DIR.to_string()))
+}
+
 #[derive(Clone, Debug, serde::Serialize, serde::Deserialize)]
 pub struct WorkerResult {
     pub bs: BatchStats,
@@ -256,7 +261,7 @@ pub fn run_batch(prop: &str, seed: u64, n: u64, workers: u64) -> Batch {
 
 fn still_fails(t: &Trace, oracle: &str) -> bool {
     let o = run::run_replay(t, &ecfg());
-    o.viol.as_ref().is_some_and(|v| v.oracle == oracle)
+    o.viol.as_ref().is_some_and(|v| v.oracle == oracle || v.aliases.iter().any(|a| a == oracle))
 }
 
 fn ops_of(e: &mut Event) -> Option<&mut Vec<Op>> {
@@ -357,7 +362,9 @@ pub fn minimise(t: &Trace, oracle: &str, budget: Duration) -> Trace {
 /// the driver down.
 pub fn minimize_cmd(args: &[String]) -> i32 {
     let rf: ReplayFile = serde_json::from_slice(&std::fs::read(&args[0]).unwrap()).unwrap();
-    let base_oracle = rf.violation.oracle.clone();
+    // the oracle id as reported may be an alias or a borrowed id ("C11.C01.x"): minimise on the
+    // id the executor itself raises
+    let base_oracle = if rf.oracle == rf.violation.oracle || rf.violation.aliases.contains(&rf.oracle) { rf.oracle.clone() } else { rf.violation.oracle.clone() };
     let t = minimise(&rf.trace, &base_oracle, Duration::from_secs(30));
     let o = run::run_replay(&t, &ecfg());
     let Some(v) = o.viol.clone() else { return 3 };
@@ -390,7 +397,7 @@ pub fn replay_cmd(args: &[String]) -> i32 {
     }
     match &o.viol {
         Some(v) => {
-            let same = v.oracle == rf.violation.oracle && v.event == rf.violation.event;
+            let same = (v.oracle == rf.violation.oracle || v.aliases.contains(&rf.oracle)) && v.event == rf.violation.event;
             println!("REPLAY property={} oracle={} event={} log_digest={:016x} same_as_recorded={} digest_matches={}", rf.property, v.oracle, v.event, o.digest, same, format!("{:016x}", o.digest) == rf.log_digest);
             println!("  {}", v.detail);
             println!("VIOLATION property={} replay={}", rf.property, args[0]);
@@ -413,7 +420,7 @@ pub struct CheckOutput {
 }
 
 pub fn write_replay(prop: &str, seed: u64, f: &Found) -> PathBuf {
-    let dir = Path::new(VERIF_DIR).join("replays");
+    let dir = out_dir().join("replays");
     let _ = std::fs::create_dir_all(&dir);
     let name = format!("{prop}-{}-s{seed}-i{}-{}-{}.json", f.oracle.replace('.', "_"), f.idx, f.sub, profile_name());
     let path = dir.join(name);
@@ -470,7 +477,7 @@ pub fn check_cmd(args: &[String]) -> i32 {
     for (idx, msg) in &batch.crashes {
         if props::owns(prop, "crash") || msg.contains("watchdog") && matches!(prop, "C08" | "C09") {
             violations += 1;
-            let path = Path::new(VERIF_DIR).join("replays").join(format!("{prop}-crash-s{seed}-i{idx}.txt"));
+            let path = out_dir().join("replays").join(format!("{prop}-crash-s{seed}-i{idx}.txt"));
             let _ = std::fs::create_dir_all(path.parent().unwrap());
             let _ = std::fs::write(&path, format!("property {prop}\nseed {seed}\nrun_index {idx}\n{msg}\nre-run: sim one {prop} {seed} {idx}\n"));
             println!("VIOLATION property={prop} replay={} oracle={prop}.crash event=? ({msg})", path.display());
@@ -640,7 +647,7 @@ pub fn write_evidence(prop: &str, tier: &str, seed: u64, b: &Batch, violations: 
         "wall_s": wall,
         "violations": violations,
     });
-    let dir = Path::new(VERIF_DIR).join("evidence");
+    let dir = out_dir().join("evidence");
     let _ = std::fs::create_dir_all(&dir);
     std::fs::write(dir.join(format!("{prop}.json")), serde_json::to_vec_pretty(&ev).unwrap()).unwrap();
 }
